@@ -256,7 +256,7 @@ fn files_json(text: &str) -> serde_json::Map<String, serde_json::Value> {
 /// entry point and isolation across files: main uses two modules that each define their own `start` and their own
 /// `g`; whatever the order of main's statements (including the `use` lines) and of each module's statements, main's
 /// `start` is the entry and sees main's `g`.
-fn entry_family(acc: &mut Stats) {
+pub fn entry_family(acc: &mut Stats) {
     let main_items = ["use a", "use b", "g :: 1", "start :: fn do\n    print(g + a.g + b.g)\n    a.start()\nend"];
     let a_items = ["print: fn *X -> void : external", "g :: 10", "start :: fn do\n    print(\"a\")\nend"];
     let b_items = ["print: fn *X -> void : external", "g :: 100", "start :: fn do\n    print(\"b\")\nend", "use a"];
